@@ -60,7 +60,10 @@ def map_coordinates(
     for indices_and_weights in itertools.product(*interpolation_data):
         indices, weights = util.unzip2(indices_and_weights)
         contribution = input[indices]
-        weighted_value = _multiply_all(weights) * contribution
+        weight = _multiply_all(weights)
+        # A corner with weight zero does not contribute, also if its entry is infinite
+        # (0 * inf would otherwise turn the values at and between finite nodes into NaN).
+        weighted_value = jnp.where(weight == 0, 0, weight * contribution)
         interpolation_values.append(weighted_value)
 
     result = _sum_all(interpolation_values)
